@@ -266,6 +266,34 @@ func drawSeq(t *rapid.T, o genOpts) gen.Seq {
 			types[i] = tg.Draw(t, depth)
 		}
 	}
+	if o.nullInUnion {
+		// make the corner frequent: half of the types get a field (or are replaced by) a union that contains the null type
+		for i := range types {
+			if i == 0 && wideK > 0 || rapid.Bool().Draw(t, "nullunion?") {
+				continue
+			}
+			members := []zed.Type{zed.TypeNull}
+			for k := rapid.IntRange(1, 3).Draw(t, "nmembers"); k > 0; k-- {
+				m := tg.Draw(t, depth-1)
+				dup := false
+				for _, x := range members {
+					dup = dup || x == m
+				}
+				if !dup {
+					members = append(members, m)
+				}
+			}
+			if len(members) < 2 {
+				members = append(members, zed.TypeInt64)
+			}
+			u := zctx.LookupTypeUnion(members)
+			if rec := zed.TypeRecordOf(types[i]); rec != nil && types[i] == zed.Type(rec) && !rec.HasField("u") && rapid.Bool().Draw(t, "asfield") {
+				types[i] = zctx.MustLookupTypeRecord(append(append([]zed.Field(nil), rec.Fields...), zed.NewField("u", u)))
+			} else {
+				types[i] = u
+			}
+		}
+	}
 	// ---- which type each value has (run structure), rows per type
 	which := make([]int, n)
 	rows := make([]int, ntypes)
